@@ -398,3 +398,30 @@ fn exec_case(ctx: &mut Ctx, real: &mut Real, oracle: Oracle, id: u64, name: &str
     }
     ctx.record(id, &okey, verdict, || format!("{} on {} base, state {{{}}}", name, blabel, m0.key()));
 }
+
+
+/// dev helper: for every instruction, how the reference answers over the tiny operand product on the populated base
+pub fn speccov(real: &mut Real) {
+    for name in real.names() {
+        let ft = match foot(&name) { Some(f) => f, None => { println!("{} NOFOOT", name); continue; } };
+        let comps = operand_comps(&name, &ft);
+        let alpha = alpha_for(&name, &Alpha::tiny());
+        let lists: Vec<Vec<Frag>> = comps.iter().map(|(c, n)| frags(*c, *n, &alpha)).collect();
+        let thin = thin_lists(&lists, 300);
+        let mut cnt = std::collections::BTreeMap::new();
+        for_product(&thin, |cur| {
+            let mut m0 = populated();
+            for f in cur { apply(&mut m0, f); }
+            let k = match refmodel::spec(&name, &m0) {
+                refmodel::Exp::Unknown => "Unknown",
+                refmodel::Exp::Any => "Any",
+                refmodel::Exp::Unfired => "Unfired",
+                refmodel::Exp::OneOf(v) => if v.len() == 1 { "Exact" } else { "OneOf" },
+                refmodel::Exp::Check(..) => "Check",
+                refmodel::Exp::OneOfOrUnfired(_) => "OneOfOrUnfired",
+            };
+            *cnt.entry(k).or_insert(0usize) += 1;
+        });
+        println!("{} {:?}", name, cnt);
+    }
+}
